@@ -35,3 +35,76 @@ contract(MTF, "to_tfrecord", props=["C18", "C01"],
                      ("C18", "forall(lambda k: implies(0 <= k and k < _k, TF_DECODABLE_K(saved_data_description, values, k)))"),
                      "forall(lambda n: implies(n in values, exists(lambda k: 0 <= k and k < ilen(saved_data_description) and attr('name', TF_ATTR(saved_data_description, k)) == n)), n='U')"]),
     })
+
+contract("tensorflow", "TFWriter.write", cls="TFWriter", sig=["self", "record"], params={"record": "U"},
+    assumed=True, verify=False, props=["C18", "C04"],
+    requires=["not self.tfclosed"], modifies=["TFWriter.nwritten@self"],
+    ensures=["self.nwritten == old(self.nwritten) + 1"],
+    note="A-TF: TFRecordWriter.write appends one record")
+contract("tensorflow", "TFWriter.close", cls="TFWriter", sig=["self"], assumed=True, verify=False,
+    props=["C06"], requires=["not self.tfclosed"], modifies=["TFWriter.tfclosed@self", "ghost:fs"],
+    fs_effects=[("self.tfpath", None)], ensures=["self.tfclosed"],
+    note="A-TF / A-FS: the record file is complete when close() returns")
+
+contract(MWT, "ShardWriterTFRec.supported_compressions", props=["C18"], params={}, returns="list:U", modifies=[],
+    ensures=["len(result) == 3 and result[0] == 'GZIP' and result[1] == 'ZLIB' and result[2] == ''"])
+
+# nrec of the abstract writer = records handed to the TFRecordWriter
+macro("TF_NREC", ["w"], "ite(w._tf_shard_writer is None, 0, w._tf_shard_writer.nwritten)")
+contract(MWT, "ShardWriterTFRec._write", props=["C18", "C04"],
+    params={"values": "dict:U"},
+    requires=["implies(self._tf_shard_writer is not None, not self._tf_shard_writer.tfclosed)"],
+    modifies=["ShardWriterTFRec._tf_shard_writer@self", "TFWriter.nwritten", "TFWriter.tfclosed", "TFWriter.tfpath"],
+    ensures=[
+        ("C04", "TF_NREC(self) == old(TF_NREC(self)) + 1"),
+        # C18: what was handed to the record writer is decodable
+        ("C18", "forall(lambda k: implies(0 <= k and k < ilen(DESC(self)), TF_DECODABLE_K(DESC(self), values, k)))"),
+    ],
+    # C18: a rejected example is never handed to the record writer
+    raises={"Exception": [("C18", "TF_NREC(self) == old(TF_NREC(self))")]})
+
+contract(MWT, "ShardWriterTFRec.close", props=["C06", "C10"], params={},
+    requires=["implies(self._tf_shard_writer is not None, not self._tf_shard_writer.tfclosed)"],
+    modifies=["ShardWriterTFRec._tf_shard_writer@self", "TFWriter.tfclosed", "ghost:fs"],
+    ensures=[("C06", "self._tf_shard_writer is None"),
+             ("C06", "dstate(old(self._tf_shard_writer).tfpath) == 2")],
+    raises={"ValueError": [("C10", "old(self._tf_shard_writer) is None")]})
+
+# ---- npz writer --------------------------------------------------------------------------
+MWN = "sedpack/io/shard/shard_writer_np.py"
+macro("INDESC", ["w", "n"], "exists(lambda k: 0 <= k and k < ilen(DESC(w)) and attr('name', iseq(DESC(w), k)) == n)")
+macro("BUFLEN", ["w", "n"], "ite(n in w._buffer, len(w._buffer[n]), 0)")
+# representation invariant of the buffer: when non-empty it has exactly the declared attribute names,
+# and all per-attribute lists have the same length (= nrec, the number of buffered examples)
+macro("NP_INV", ["w"],
+      "forall(lambda n: implies(n in w._buffer, INDESC(w, n)), n='U')"
+      " and forall(lambda n, m: implies(n in w._buffer and INDESC(w, m), m in w._buffer and len(w._buffer[m]) == len(w._buffer[n]) and len(w._buffer[n]) >= 1), n='U', m='U')")
+contract(MWN, "ShardWriterNP._write", props=["C18", "C04", "C01"],
+    params={"values": "dict:U"},
+    requires=["NP_INV(self)"],
+    modifies=["ShardWriterNP._buffer@self"],
+    ensures=[
+        "NP_INV(self)",
+        # C18/C04: every declared attribute got exactly one more value (all lists stay equally long) ...
+        (["C04", "C18"], "forall(lambda n: implies(INDESC(self, n), n in self._buffer and len(self._buffer[n]) == old(BUFLEN(self, n)) + 1), n='U')"),
+        # ... the accepted example had exactly the declared attribute names and no object-dtype value (loadable without pickle)
+        ("C18", "forall(lambda n: (n in values) == INDESC(self, n), n='U')"),
+        ("C18", "forall(lambda n: implies(n in values, attr('dtype', libcall('np.copy', values[n])) != OBJECT_T()), n='U')"),
+        # C01: what is buffered last is an independent copy of the value passed
+        ("C01", "forall(lambda n: implies(INDESC(self, n), self._buffer[n][len(self._buffer[n]) - 1] == libcall('np.copy', values[n])), n='U')"),
+    ],
+    # C18: a rejected example leaves the buffer exactly as it was
+    raises={"Exception": [("C18", "forall(lambda n: (n in self._buffer) == old(n in self._buffer) and BUFLEN(self, n) == old(BUFLEN(self, n)), n='U')")]},
+    loops={
+        1: Loop(inv=["0 <= _k",
+                     ("C18", "forall(lambda j: implies(0 <= j and j < _k, attr('dtype', copies[dictkey(copies, j)]) != OBJECT_T()))"),
+                     "forall(lambda n: (n in self._buffer) == loop_entry(n in self._buffer) and BUFLEN(self, n) == loop_entry(BUFLEN(self, n)), n='U')"],
+                frame={"ShardWriterNP._buffer": []}),
+        2: Loop(inv=["0 <= _k",
+                     "forall(lambda n: (n in self._buffer) == loop_entry(n in self._buffer), n='U')",
+                     # keys already visited have one more value, the others are untouched
+                     ("C18", "forall(lambda n: implies(n in copies, len(self._buffer[n]) == loop_entry(len(self._buffer[n])) + ite(dictidx(copies, n) < _k, 1, 0)), n='U')"),
+                     ("C01", "forall(lambda n: implies(n in copies and dictidx(copies, n) < _k, self._buffer[n][len(self._buffer[n]) - 1] == copies[n]), n='U')"),
+                     ],
+                frame={"ShardWriterNP._buffer": ["self"]}),
+    })
